@@ -199,7 +199,7 @@ def run(case):
                         why.append(f"extra coordinate {name}: rebinned values {b.tolist()} are not the source table at the block centres {exp.tolist()}")
                         break
                     out["tabs"].append({"vals": [Fr(float(x)) for x in a], "len": len(a), "f": f, "rel": rel,
-                                        "tol": Fr(1, 100000) if rel else Fr(1, 10 ** 9), "impl": [Fr(float(x)) for x in b]})
+                                        "tol": Fr(1, 100000) if kind == "time" else Fr(1, 10 ** 9), "impl": [Fr(float(x)) for x in b]})
     return {"out": _ser(out), "oracle": {"ok": not why, "why": "; ".join(why), "finding": None}}
 
 
